@@ -9,6 +9,7 @@ pub mod adapter;
 pub mod codes;
 pub mod memwords;
 pub mod modelval;
+pub mod pure;
 pub mod readers;
 pub mod tables;
 pub mod writers;
@@ -29,6 +30,10 @@ pub fn run(id: &str, ctx: &Ctx) -> (CheckMeta, Outcome) {
         "C12" => writers::c12(ctx),
         "C13" => memwords::c13(ctx),
         "C14" => writers::c14(ctx),
+        "C16" => pure::c16(ctx),
+        "C17" => pure::c17(ctx),
+        "C18" => pure::c18(ctx),
+        "C20" => pure::c20(ctx),
         _ => {
             println!("unknown property {}", id);
             std::process::exit(2);
